@@ -1,8 +1,8 @@
 #!/verif/.venv/bin/python
 # Replay of a solver counterexample against the unmodified code (no shims).
-# property=C17 kernel=config label=k3:state_repr_independent
+# property=C17 kernel=config label=k3:config_roundtrip_completes
 import sys
 sys.path[:0] = ['/repo' + "/pulser-core", '/repo' + "/pulser-simulation", "/verif"]
 from symx.replay import replay
-sys.exit(replay(check='checks.c17', kernel='config', shape={'obs': ['fidelity', 'bitstrings'], 'times': [True, False], 'init': True, 'shots': 7, 'prefer': False},
-                assignment={'o0_t0': '0/1', 'o0_t1': '1/1024'}, label='k3:state_repr_independent'))
+sys.exit(replay(check='checks.c17', kernel='config', shape={'obs': ['bitstrings'], 'times': [True], 'noise': 'eff'},
+                assignment={'o0_t0': '0/1', 'o0_t1': '1/2', 'eff_rate': '1152921504606847/1152921504606846976'}, label='k3:config_roundtrip_completes'))
